@@ -91,6 +91,7 @@ func (t *ReuseConnTransport) ExchangeContext(ctx context.Context, m []byte) (*[]
 
 	retry := 0
 	for {
+		verifhook.Point("reuse.attempt")
 		var isNewConn bool
 		c, err := t.getIdleConn()
 		if err != nil {
@@ -102,6 +103,7 @@ func (t *ReuseConnTransport) ExchangeContext(ctx context.Context, m []byte) (*[]
 			if err != nil {
 				return nil, err
 			}
+			verifhook.Point("reuse.conn.created")
 		}
 
 		queryPayload, err := copyMsgWithLenHdr(m)
